@@ -326,16 +326,20 @@ fn c03_cycle_bound_fixpoint_search_inner(progress: &Arc<Mutex<String>>) -> (bool
     let vars = variants();
     let starts = [St { n: 0, t: 0, f: false, g: false }, St { n: 2, t: 1, f: true, g: false }];
     let mut tried = 0u64;
+    // every set of 1..=3 variants (thorough tier: 1..=5), in the order a; a,b; a,b,c; ..
+    let (max_size, top_cycles) = (crate::bound(3, 5), crate::bound(4, 6));
     let mut sets: Vec<Vec<usize>> = vec![];
-    for a in 0..vars.len() {
-        sets.push(vec![a]);
-        for b in a + 1..vars.len() {
-            sets.push(vec![a, b]);
-            for c in b + 1..vars.len() {
-                sets.push(vec![a, b, c]);
+    fn extend(v: &mut Vec<Vec<usize>>, cur: &mut Vec<usize>, from: usize, n: usize, max_size: usize) {
+        for a in from..n {
+            cur.push(a);
+            v.push(cur.clone());
+            if cur.len() < max_size {
+                extend(v, cur, a + 1, n, max_size);
             }
+            cur.pop();
         }
     }
+    extend(&mut sets, &mut Vec::new(), 0, vars.len(), max_size);
     sets.sort_by_key(|s| s.len()); // smallest rule sets first, so that a reported input is small
     for (si, set) in sets.iter().enumerate() {
         // two salience patterns: all tied (insertion order decides) / ascending (the rule added last goes first)
@@ -349,10 +353,10 @@ fn c03_cycle_bound_fixpoint_search_inner(progress: &Arc<Mutex<String>>) -> (bool
                 .map(|(k, v)| RuleD { name: format!("r{}", k), tpl: vars[*v].0, no_loop: vars[*v].1, act: vars[*v].2, sal: if pattern == 0 { 0 } else { k as i32 - 1 } })
                 .collect();
             for (sti, start) in starts.iter().enumerate() {
-                if sti == 1 && set.len() == 3 && si % 4 != 0 {
+                if sti == 1 && set.len() >= 3 && si % 4 != 0 {
                     continue;
                 }
-                for max_cycles in 0..=4usize {
+                for max_cycles in 0..=top_cycles {
                     // the callback route (with the pass probe) always; the other two routes alternate
                     let other = if (si + max_cycles) % 2 == 0 { Path::AtTime } else { Path::Plain };
                     for path in [Path::Callback, other] {
@@ -366,16 +370,17 @@ fn c03_cycle_bound_fixpoint_search_inner(progress: &Arc<Mutex<String>>) -> (bool
             }
         }
     }
-    (false, format!("{} runs: every set of 1..3 rules from 24 variants (self-triggering, mutually triggering, empty action list, never true, once, chained; with/without no-loop; activation group), tied and ascending saliences, 2 start states, max_cycles 0..4, execute_with_callback + execute_at_time/execute", tried))
+    (false, format!("{} runs: every set of 1..{} rules from 24 variants (self-triggering, mutually triggering, empty action list, never true, once, chained; with/without no-loop; activation group), tied and ascending saliences, 2 start states, max_cycles 0..{}, execute_with_callback + execute_at_time/execute", tried, max_size, top_cycles))
 }
 fn c03_cycle_bound_fixpoint_search() -> (bool, String) {
-    guarded(40, c03_cycle_bound_fixpoint_search_inner)
+    guarded(crate::bound(40, 900) as u64, c03_cycle_bound_fixpoint_search_inner) // (whole-search watchdog)
 }
 
 /// larger bounds: single rules and pairs with max_cycles in {5, 7, 63, 64}
 fn c03_large_bound_search_inner(progress: &Arc<Mutex<String>>) -> (bool, String) {
     let vars = variants();
     let start = St { n: 0, t: 0, f: false, g: false };
+    let bounds: &[usize] = if crate::thorough() { &[5, 7, 63, 64, 65, 128, 500] } else { &[5, 7, 63, 64] };
     let mut tried = 0u64;
     for a in 0..vars.len() {
         for b in a..vars.len() {
@@ -383,7 +388,7 @@ fn c03_large_bound_search_inner(progress: &Arc<Mutex<String>>) -> (bool, String)
             if b > a {
                 rules.push(RuleD { name: "r1".into(), tpl: vars[b].0, no_loop: vars[b].1, act: vars[b].2, sal: 1 });
             }
-            for max_cycles in [5usize, 7, 63, 64] {
+            for &max_cycles in bounds {
                 if b > a && (max_cycles == 7 || max_cycles == 63) && (a + b) % 3 != 0 {
                     continue;
                 }
@@ -397,10 +402,10 @@ fn c03_large_bound_search_inner(progress: &Arc<Mutex<String>>) -> (bool, String)
             }
         }
     }
-    (false, format!("{} runs: every rule and pair of rules from the 24 variants with max_cycles in {{5, 7, 63, 64}}", tried))
+    (false, format!("{} runs: every rule and pair of rules from the 24 variants with max_cycles in {:?}", tried, bounds))
 }
 fn c03_large_bound_search() -> (bool, String) {
-    guarded(40, c03_large_bound_search_inner)
+    guarded(crate::bound(40, 900) as u64, c03_large_bound_search_inner) // (whole-search watchdog)
 }
 
 pub fn witnesses() -> Vec<crate::W> {
